@@ -609,6 +609,52 @@ pub fn run(args: &Args) -> ! {
             }
         }
     }
+    // class family: ranges, a '-' first / last / directly after a range (a
+    // literal there, as in fnmatch and git), negation; against every
+    // one-character path over printable ASCII and a few longer ones
+    {
+        let specials = [
+            "[a-b-z]", "[a-b-A]", "[!a-b-z]", "[a-b-]", "[a-b--z]", "[a-c-e]", "[0-9-a]", "[a-]", "[-a]", "[--a]", "[a--]", "[+--]", "[!-a]", "[]-a]", "[a-b-c-d]", "[b-a]",
+            "x[a-b-z]", "[a-b-z]x", "[a-bA-B-]",
+        ];
+        let mut spaths: Vec<Vec<u8>> = (0x20u8..0x7f).map(|b| vec![b]).collect();
+        for b in [b'a', b'c', b'-', b'z', b'A'] {
+            spaths.push(vec![b'x', b]);
+            spaths.push(vec![b, b'x']);
+        }
+        for g in specials {
+            for oi in 0..nopts {
+                let o = Opts::from_index(oi);
+                let imp = o.builder(g).build();
+                let rf = ref_parse(g, o, false);
+                acc_total.single_evals += 1;
+                match (&imp, &rf) {
+                    (Err(_), Err(_)) => acc_total.ref_errors_agree += 1,
+                    (Ok(gl), Ok(rf)) => {
+                        let m = gl.compile_matcher();
+                        let mut per = 0;
+                        for p in spaths.iter() {
+                            let (a, b) = (m.is_match(os(p)), rf.is_match(p));
+                            acc_total.single_evals += 1;
+                            if a != b && per < 3 {
+                                per += 1;
+                                verdict.discrepancy(
+                                    None,
+                                    &format!("single:{}:{}:{}", g, oi, esc(p)),
+                                    json!({"kind":"single-vs-reference","glob":g,"opts":oi,"path":esc(p),"impl":a,"reference":b}),
+                                );
+                            }
+                        }
+                    }
+                    _ => verdict.discrepancy(
+                        None,
+                        &format!("build:{}:{}", g, oi),
+                        json!({"kind":"glob-accepted-vs-reference","glob":g,"opts":oi,"impl_ok":imp.is_ok(),"ref_ok":rf.is_ok()}),
+                    ),
+                }
+            }
+        }
+    }
     // alternates x recursive wildcard family: `{a,b}` matches what `a` or `b`
     // matches in its place, so a glob with one group must match exactly what
     // its textual inlinings (brace-free globs) match
@@ -685,6 +731,9 @@ pub fn run(args: &Args) -> ! {
         ("**/*.b", 2), ("a*", 0), ("a/*", 0), ("a.*", 0), ("*a", 0), ("*/a", 0), ("**/a", 2), ("*.a*", 0),
         ("a*.b", 0), ("*a.", 0), ("[ab]", 0), ("a?b", 2), ("{a,b}.a", 0), ("**", 0), ("*", 2), ("a/**", 0),
         ("a/**/b", 2), ("?", 0), (".", 0), ("a.", 0), ("*.A", 1), ("b/a.", 0),
+        // a leading separator in front of the recursive wildcard: the path has
+        // to start with one
+        ("/**/b", 0), ("/**/a.b", 2), ("/**/a/b", 0), ("/**", 0),
     ];
     // A second pool: per multi-literal strategy (prefix, suffix, required
     // extension, basename literal) a family of globs whose literals nest and
@@ -916,7 +965,7 @@ pub fn run(args: &Args) -> ! {
     ev.set(
         "rule",
         format!(
-            "layer 2: every token string of length <= {} over {:?} x 16 GlobBuilder option sets, matched against every path of length <= {} over {:?} (plus the same shapes with 0xFF for '-'), compared with an independent backtracking reference written from the documented syntax (plus 24 globs with balanced, unbalanced, empty, nested and escaped braces x the option sets: accepted or rejected as documented, and matched against paths containing the metacharacters); layer 1: {} glob sets (every glob alone, one set of all globs for each of the option sets {:?}, one set mixing all 16 option sets, all ordered pairs{} over a 30-glob pool with several representatives per strategy, all ordered pairs over a second 30-glob pool of prefix / suffix / extension / basename families whose literals nest inside one another; after every answer an empty set must clear the reused buffer) x the same paths, GlobSet::matches_candidate / matches_into / is_match compared with the answers of the member globs' own matchers. Non-trivial = the glob (or at least one member) matches the path; every (glob, options, path) and (set, path) is distinct by construction.",
+            "layer 2: every token string of length <= {} over {:?} x 16 GlobBuilder option sets, matched against every path of length <= {} over {:?} (plus the same shapes with 0xFF for '-'), compared with an independent backtracking reference written from the documented syntax (plus 19 globs with classes that hold ranges and a '-' first, last or directly after a range, against every one-character path over printable ASCII; plus 24 globs with balanced, unbalanced, empty, nested and escaped braces x the option sets: accepted or rejected as documented, and matched against paths containing the metacharacters); layer 1: {} glob sets (every glob alone, one set of all globs for each of the option sets {:?}, one set mixing all 16 option sets, all ordered pairs{} over a 34-glob pool with several representatives per strategy (incl. `/**/lit` globs, which must not be served by a plain suffix test), all ordered pairs over a second 30-glob pool of prefix / suffix / extension / basename families whose literals nest inside one another; after every answer an empty set must clear the reused buffer) x the same paths, GlobSet::matches_candidate / matches_into / is_match compared with the answers of the member globs' own matchers. Non-trivial = the glob (or at least one member) matches the path; every (glob, options, path) and (set, path) is distinct by construction.",
             glen, GLOB_TOKENS, plen, std::str::from_utf8(PATH_BYTES).unwrap(), nsets, big_opts,
             if tier == Tier::Thorough { " and all triples" } else { "" },
         ),
